@@ -19,6 +19,16 @@ union-left ⇔ all members (lenient: some member), union-right with a non-union 
 members queried on the real type system) and monotone in the right union, strict ⇒ lenient, `is_subclass` ==
 `issubclass` (+ numeric tower), distance defined ⇒ may-be-subtype (between Instances: ⇒ Python subclass), distance
 of identical types is 0.
+
+HISTORIES (case key `hist`): on ONE real `TypeSystem()` all classes are registered without edges (`to_type_info`), then
+the `(base, class)` pairs of Python's `__bases__` are added with `add_subclass_edge` in some order (as the module
+analysis does / supers first / leaves first / shuffled, an edge repeated, `enable_numeric_tower` somewhere) and memoised
+queries (`is_subclass`, `is_subtype`, `is_maybe_subtype`, `subtype_distance`, `get_subclasses`, `get_superclasses`) are
+asked BEFORE and AFTER each edge (the pair of the edge itself, neighbours, re-asked earlier queries), with a full sweep
+at the end.  The model replays the history through C26's memo model (`Generators.run`); the oracle compares every
+answer with a type system that received the same edges and was never queried before ("consistent with the class
+hierarchy" = a function of the hierarchy of that moment) and the final `is_subclass` / argument-free `Instance`
+answers with `issubclass` (+ tower).
 """
 from __future__ import annotations
 
@@ -90,7 +100,7 @@ def union_without_instance(t):
 class C25(PropertyCheck):
     prop_id = "C25"
     prop_modules = ["PynguinModel.Props.C25"]
-    extra_modules = ["PynguinModel.Model.Types"]
+    extra_modules = ["PynguinModel.Model.Types", "PynguinModel.Model.Generators"]
     driver = "Driver/C25.lean"
     n_quick = 40
     n_thorough = 600
@@ -100,12 +110,15 @@ class C25(PropertyCheck):
             "a union nested at depth 1-3 together with their narrowed forms inside right-hand unions; "
             "parameterised instances of different related classes); all ordered pairs are queried "
             "(is_subtype, is_maybe_subtype, subtype_distance), all pairs of analysed classes (is_subclass, "
-            "shortest path); non-trivial = distinct case whose pool has at least one strict non-identical "
+            "shortest path); + one HISTORY per case on a new TypeSystem: classes registered, __bases__ edges added in "
+            "one of five orders with memoised queries before/after every edge and a final sweep, every answer "
+            "compared with the memo model and with a never-queried type system; non-trivial = distinct case whose pool has at least one strict non-identical "
             "subtype pair and one defined non-identical distance")
     assumptions = [
         "types are well-formed: classes known to the type system, list/set/dict instances carry 1/1/2 arguments "
         "(what _fixup_known_generics guarantees), unions non-empty (asserted by UnionType)",
         "StringSubtype, Unsupported and type-hint conversion are outside the model",
+        "histories: lru_cache eviction is not modelled (a history asks far fewer distinct queries than maxsize)",
         "Python's issubclass is taken on plain classes (no ABC registration / __subclasscheck__ in generated modules)",
     ]
     trusted_base_extra = [
@@ -137,6 +150,16 @@ class C25(PropertyCheck):
                     b = rng.choice(cands)
                     if b not in bases:
                         bases.append(b)
+                if bases and rng.random() < 0.25:
+                    # name an INDIRECT base again (`class C(B, A)` with `B(A)`): legal after the direct ones; the
+                    # inheritance graph gets a shortcut edge A -> C next to the path A -> B -> C
+                    first = real.get(bases[0]) or env[bases[0]]
+                    mro = getattr(first, "__mro__", ())[1:]
+                    again = [nm for nm in list(real) + list(env) if (real.get(nm) or env[nm]) in mro]
+                    if again:
+                        b = rng.choice(again)
+                        if b not in bases:
+                            bases.append(b)
                 try:
                     cls = type(name, tuple(real.get(b) or env[b] for b in bases), {})
                 except TypeError:
@@ -395,7 +418,302 @@ class C25(PropertyCheck):
         for _ in range(3):
             c = rng.choice(["builtins.list", "builtins.set", "builtins.dict", rng.choice(user), "builtins.int"])
             raw.append({"i": [c, [self._gen_ty(rng, classes, 0) for _ in range(rng.randint(0, 3))]]})
-        return {"classes": specs, "pool": pool, "raw": raw}
+        return {"classes": specs, "pool": pool, "raw": raw, "hist": self._gen_hist(rng, specs, pool)}
+
+    # -- histories: queries interleaved with the construction of the hierarchy ------------------------
+    @staticmethod
+    def _class_edges(specs):
+        """Registration order and `(super, sub)` pairs in Python's own words (`__bases__`) for the generated classes
+        and every builtin they (or the instance types used) reach."""
+        import builtins
+        seen, edges = [], []
+
+        def reg(name):
+            if name in seen or name.startswith("K"):
+                return
+            cls = getattr(builtins, name.split(".", 1)[1])
+            for b in cls.__bases__:
+                reg("builtins." + b.__name__)
+            seen.append(name)
+            edges.extend(("builtins." + b.__name__, name) for b in cls.__bases__)
+
+        for name, bases in specs:
+            bs = list(dict.fromkeys(_full(b) for b in bases)) or ["builtins.object"]
+            for b in bs:
+                reg(b)
+            seen.append(name)
+            edges.extend((b, name) for b in bs)
+        for b in ("object", "int", "float", "bool", "complex", "str", "list", "dict", "set"):
+            reg("builtins." + b)
+        return seen, edges
+
+    def _gen_hist(self, rng, specs, pool):
+        seen, edges = self._class_edges(specs)
+        user = [s_[0] for s_ in specs]
+        plain = [c for c in seen if c not in ARITY and c != "builtins.tuple"]
+        inst = lambda c: {"i": [c, []]}  # noqa: E731
+        # types: an argument-free instance of every user class and of some builtins, composites over them, pool types
+        types = [inst(c) for c in user]
+        types += [inst(c) for c in ("builtins.object", "builtins.int", "builtins.float", "builtins.bool")]
+        k1, k2 = rng.choice(user), rng.choice(plain)
+        comp = [{"i": ["builtins.list", [inst(k1)]]}, {"t": [False, [inst(k1), inst(k2)]]},
+                {"u": [inst(k2), inst(rng.choice(user))]}, {"i": ["builtins.dict", [inst("builtins.int"), inst(k1)]]},
+                {"i": [rng.choice(user), [inst(k2)]]}, {"i": ["builtins.set", [{"u": [inst(k1), "N"]}]]},
+                {"t": [False, [{"u": [inst(k1), inst(k2)]}]]}]
+        rng.shuffle(comp)
+        cand = comp[:rng.randint(2, 4)] + rng.sample(pool, min(len(pool), 3))
+        for t in cand:
+            if t not in types and len(types) < 17:
+                types.append(t)
+        mentions = {}
+        for k, t in enumerate(types):
+            for c in seen:
+                if t_any(lambda x, c=c: isinstance(x, dict) and "i" in x and x["i"][0] == c, t):
+                    mentions.setdefault(c, []).append(k)
+        # order of the edges
+        depth = {}
+        for a, b in edges:  # `edges` lists the bases of a class after the edges of these bases
+            depth[b] = max(depth.get(b, 0), depth.get(a, 0) + 1)
+        style = rng.choice(["analysis", "analysis", "supers-first", "leaves-first", "shuffle", "shuffle",
+                            "indirect-bases-last", "indirect-bases-last"])
+        order = list(edges)
+        if style == "indirect-bases-last":
+            # every edge from a base that is also an ancestor of another base comes after all other edges
+            anc = {c: {c} for c in seen}
+            for a, b in edges:
+                anc[b] |= anc[a]
+            late = [(a, b) for a, b in edges if any(b2 == b and o != a and a in anc[o] for o, b2 in edges)]
+            order = [e for e in edges if e not in late]
+            if rng.random() < 0.5:
+                rng.shuffle(order)
+            order += late
+        if style == "supers-first":
+            order.sort(key=lambda e: (depth.get(e[1], 0), rng.random()))
+        elif style == "leaves-first":
+            order.sort(key=lambda e: (-depth.get(e[1], 0), rng.random()))
+        elif style == "shuffle":
+            rng.shuffle(order)
+        if rng.random() < 0.35:
+            order.insert(rng.randrange(len(order) + 1), rng.choice(edges))
+        steps = [["edge", a, b] for a, b in order]
+        if rng.random() < 0.75:
+            steps.insert(rng.randrange(len(steps) + 1), ["tower"])
+        asked = []
+
+        def ty_of(c):
+            return mentions[c][0] if c in mentions and types[mentions[c][0]] == inst(c) else None
+
+        up = {c: {c} for c in seen}      # final ancestors / descendants (the edge list is in dependency order)
+        for a, b in edges:
+            up[b] |= up[a]
+        down = {c: sorted(d for d in seen if c in up[d]) for c in seen}
+
+        def core(sup, sub):
+            """the pair of the edge itself and, sometimes, an ancestor of the one with a descendant of the other"""
+            pairs = [(sup, sub)]
+            if rng.random() < 0.5:
+                pairs.append((rng.choice(sorted(up[sup])), rng.choice(down[sub])))
+            qs = []
+            for x, y in pairs:
+                qs.append(["subclass", y, x])
+                i, j = ty_of(x), ty_of(y)
+                if i is not None and j is not None:
+                    qs += [["dist", i, j], ["sub", j, i]]
+                    if rng.random() < 0.5:
+                        qs.append(["maybe", j, i])
+            if rng.random() < 0.4:
+                qs.append([rng.choice(["superclasses", "subclasses"]), rng.choice([sup, sub])])
+            return qs
+
+        def near(sup, sub):
+            k = rng.random()
+            cs = [sup, sub, rng.choice(seen), rng.choice(user)]
+            if k < 0.55:
+                ts = [x for c in cs for x in mentions.get(c, [])] or list(range(len(types)))
+                return [rng.choice(["sub", "maybe", "dist", "dist"]), rng.choice(ts),
+                        rng.choice(ts if rng.random() < 0.7 else list(range(len(types))))]
+            if k < 0.8:
+                return ["subclass", rng.choice(cs), rng.choice(cs)]
+            return [rng.choice(["superclasses", "subclasses"]), rng.choice(cs)]
+
+        def echoes(n):
+            recent = asked[-30:]
+            return [rng.choice(recent) for _ in range(n)] if recent else []
+
+        ops = []
+        mid_sweep = rng.random() < 0.15
+        reach = {c: {c} for c in seen}   # descendants so far
+        for step in steps:
+            sup, sub = ("builtins.float", "builtins.int") if step[0] == "tower" else step[1:]
+            # an edge between already related classes (`class C(B, A)` with `B(A)`) changes path lengths only:
+            # always ask around it
+            shortcut = step[0] == "edge" and sub in reach[sup]
+            if step[0] == "edge":
+                for c in seen:
+                    if sup in reach[c]:
+                        reach[c] |= reach[sub]
+            if shortcut and rng.random() < 0.9:
+                batch = core(sup, sub) + core(sup, sub)
+                asked += batch
+                ops += batch + [step] + batch
+                continue
+            if rng.random() < 0.65:
+                batch = (core(sup, sub) if rng.random() < 0.8 else []) + \
+                    [near(sup, sub) for _ in range(rng.randint(1, 6))] + echoes(rng.randint(0, 3))
+                asked += batch
+                ops += batch
+            ops.append(step)
+            if rng.random() < 0.5:
+                batch = core(sup, sub) + echoes(rng.randint(1, 4))
+                asked += batch
+                ops += batch
+            if mid_sweep and rng.random() < 0.1:
+                ops.append(["sweep"])
+                mid_sweep = False
+        ops.append(["sweep"])
+        return {"classes": seen, "types": types, "ops": ops, "style": style}
+
+    def _hist_plan(self, ctx, case):
+        """The history in concrete terms: `[op, i, j, how]` with class ids / type indices into pool + raw + hist types.
+        `how`: "edge" (one `add_subclass_edge` call), "tower" (first of the three edges of `enable_numeric_tower`),
+        "tower+" (its other two), "" for queries."""
+        hist = case.get("hist")
+        if not hist:
+            return None
+        ids = ctx["ids"]
+        off = len(case["pool"]) + len(case["raw"])
+        known = [c for c in hist["classes"] if c in ids and ids[c] < len(ctx["nodes"])]
+        sweep_cls = known if len(known) <= 16 else ([c for c in known if c.startswith("K")] +
+                                                    [c for c in known if not c.startswith("K")])[:16]
+        nt = len(hist["types"])
+        plan, skipped = [], 0
+        for op in hist["ops"]:
+            o = op[0]
+            if o == "tower":
+                b, i, f, x = ctx["tower"]
+                plan += [["edge", i, b, "tower"], ["edge", f, i, "tower+"], ["edge", x, f, "tower+"]]
+            elif o == "sweep":
+                for q in ("sub", "maybe", "dist"):
+                    plan += [[q, off + i, off + j, ""] for i in range(nt) for j in range(nt)]
+                plan += [["subclass", ids[a], ids[b], ""] for a in sweep_cls for b in sweep_cls]
+                plan += [[q, ids[a], 0, ""] for q in ("subclasses", "superclasses") for a in sweep_cls]
+            elif o in ("edge", "subclass"):
+                if op[1] in known and op[2] in known:
+                    plan.append([o, ids[op[1]], ids[op[2]], "edge" if o == "edge" else ""])
+                else:
+                    skipped += 1
+            elif o in ("subclasses", "superclasses"):
+                if op[1] in known:
+                    plan.append([o, ids[op[1]], 0, ""])
+                else:
+                    skipped += 1
+            else:
+                plan.append([o, off + op[1], off + op[2], ""])
+        return {"plan": plan, "known": [ids[c] for c in known], "skipped": skipped, "off": off}
+
+    def _hist_ask(self, ctx, ts, types, known, q):
+        op, i, j = q[0], q[1], q[2]
+        nodes, off = ctx["nodes"], ctx["hist_off"]
+        if op == "sub":
+            return self._call(ts.is_subtype, types[i - off], types[j - off])
+        if op == "maybe":
+            return self._call(ts.is_maybe_subtype, types[i - off], types[j - off])
+        if op == "dist":
+            return self._call(ts.subtype_distance, types[i - off], types[j - off])
+        if op == "subclass":
+            return self._call(ts.is_subclass, nodes[i], nodes[j])
+        f = ts.get_subclasses if op == "subclasses" else ts.get_superclasses
+        r = self._call(f, nodes[i])
+        if isinstance(r, dict):
+            return r
+        index = {nodes[k]: k for k in known}
+        return sorted(index[x] for x in r if x in index)
+
+    @staticmethod
+    def _hist_apply(ts, nodes, step):
+        if step[3] == "edge":
+            ts.add_subclass_edge(super_class=ts.to_type_info(nodes[step[1]].raw_type),
+                                 sub_class=ts.to_type_info(nodes[step[2]].raw_type))
+        elif step[3] == "tower":
+            ts.enable_numeric_tower()
+
+    def _hist_impl(self, ctx, case):
+        import networkx as nx
+        hp = self._hist_plan(ctx, case)
+        if hp is None:
+            return None
+        tsm, nodes = ctx["tsm"], ctx["nodes"]
+        plan, known = hp["plan"], hp["known"]
+        ctx["hist_off"] = hp["off"]
+        types = [self._mk(ctx, t) for t in case["hist"]["types"]]
+
+        def new_ts():
+            ts = tsm.TypeSystem()
+            for k in known:
+                ts.to_type_info(nodes[k].raw_type)
+            return ts
+
+        # 1. the history on ONE live type system
+        live = new_ts()
+        ans, kinds = [], set()
+        touched = set()   # classes mentioned by `is_subclass`/hierarchy queries so far
+        for step in plan:
+            if step[0] == "edge":
+                if step[3] == "edge":
+                    g = live._graph  # noqa: SLF001
+                    a, b = nodes[step[1]], nodes[step[2]]
+                    if g.has_edge(a, b):
+                        kinds.add("repeated-edge")
+                    elif nx.has_path(g, a, b):
+                        kinds.add("shortcut-edge" + ("-after-query" if touched else ""))
+                    elif g.degree(b) == 0:
+                        kinds.add("first-edge-of-isolated-class" + ("-queried-before" if step[2] in touched else ""))
+                    elif g.in_degree(b) > 0:
+                        kinds.add("further-base-of-connected-class")
+                self._hist_apply(live, nodes, step)
+            else:
+                if step[0] in ("subclass", "subclasses", "superclasses"):
+                    touched.update(step[1:3] if step[0] == "subclass" else step[1:2])
+                ans.append(self._hist_ask(ctx, live, types, known, step))
+        index = {nodes[k]: k for k in known}
+        edges = sorted({(index[a], index[b]) for a, b in live._graph.edges if a in index and b in index})  # noqa: SLF001
+        # 2. the reference: for every run of consecutive queries a NEW type system that receives the edges added so
+        #    far and is queried only afterwards (the caches are class-level: built after the live run is over)
+        ref, k = [], 0
+        while k < len(plan):
+            if plan[k][0] == "edge":
+                k += 1
+                continue
+            fresh = new_ts()
+            for step in plan[:k]:
+                if step[0] == "edge":
+                    self._hist_apply(fresh, nodes, step)
+            while k < len(plan) and plan[k][0] != "edge":
+                ref.append(self._hist_ask(ctx, fresh, types, known, plan[k]))
+                k += 1
+        # 3. Python's own words
+        want = {(index[tsm.TypeInfo(b)], k_) for k_ in known
+                for b in (getattr(b_, "__origin__", b_) for b_ in nodes[k_].raw_type.__bases__)
+                if tsm.TypeInfo(b) in index}
+        plain = {(s_[1], s_[2]) for s_ in plan if s_[3] == "edge"}
+        tower_on = any(s_[3] == "tower" for s_ in plan)
+        tower = [nodes[k_].raw_type for k_ in ctx["tower"]]
+
+        def expected(a, b):
+            if issubclass(a, b):
+                return True
+            return tower_on and any(issubclass(a, tower[x]) and issubclass(tower[y], b)
+                                    for x in range(4) for y in range(x + 1, 4))
+
+        exp = {f"{a},{b}": expected(nodes[a].raw_type, nodes[b].raw_type) for a in known for b in known}
+        for kd in kinds:
+            self.count("hist-kind:" + kd)
+        self.count("hist:queries", len(ans))
+        self.count("hist:edges", sum(1 for s_ in plan if s_[0] == "edge"))
+        self.count("hist:skipped-ops", hp["skipped"])
+        self.count("hist-style:" + str(case["hist"].get("style")))
+        return {"ans": ans, "ref": ref, "edges": [list(e) for e in edges], "exp": exp,
+                "complete": plain == want, "known": known}
 
     # -- implementation adapter -----------------------------------------------------------------
     def _context(self, case):
@@ -548,21 +866,37 @@ class C25(PropertyCheck):
         any_d = __import__("inspect").signature(ctx["tsm"]._SubtypeDistanceVisitor.__init__)  # noqa: SLF001
         self.count("classes:%d" % len(case["classes"]))
         self.count("pool:%d" % len(pool))
-        return {"edges": [list(e) for e in edges], "out": out, "convex": True,
-                "aux": {"exp": exp, "cls": cls, "missing": missing, "names": ctx["names"],
-                        "anyD": any_d.parameters["any_distance"].default}}
+        res = {"edges": [list(e) for e in edges], "out": out, "convex": True,
+               "aux": {"exp": exp, "cls": cls, "missing": missing, "names": ctx["names"],
+                       "anyD": any_d.parameters["any_distance"].default}}
+        hist = self._hist_impl(ctx, case)
+        if hist is not None:
+            res["hist"] = hist
+        return res
 
     def model_line(self, case):
         ctx = self._context(case)
         any_d = __import__("inspect").signature(ctx["tsm"]._SubtypeDistanceVisitor.__init__)  # noqa: SLF001
-        return jdump({"classes": ctx["table"], "extra": ctx["extra"], "tower": ctx["tower"],
-                      "generics": ctx["generics"], "anyD": any_d.parameters["any_distance"].default,
-                      "pool": [self._ids_ty(ctx, t) for t in case["pool"] + case["raw"]],
-                      "qs": self._queries(ctx, case)})
+        line = {"classes": ctx["table"], "extra": ctx["extra"], "tower": ctx["tower"],
+                "generics": ctx["generics"], "anyD": any_d.parameters["any_distance"].default,
+                "pool": [self._ids_ty(ctx, t) for t in case["pool"] + case["raw"]],
+                "qs": self._queries(ctx, case)}
+        hp = self._hist_plan(ctx, case)
+        if hp is not None:
+            line["pool"] += [self._ids_ty(ctx, t) for t in case["hist"]["types"]]
+            line["hist"] = {"nodes": hp["known"], "ops": [[s_[0], [s_[1], s_[2]]] for s_ in hp["plan"]]}
+        return jdump(line)
 
     def compare(self, case, impl_out, model_out) -> bool:
         if "bad-op" in model_out:
             return False
+        if "hist" in impl_out:
+            h = impl_out["hist"]
+            m_ans = [sorted(a) if isinstance(a, list) else a for a in model_out.get("hist", [])]
+            if m_ans != h["ans"]:
+                return False
+            if sorted({tuple(e) for e in model_out.get("hist_edges", [])}) != [tuple(e) for e in h["edges"]]:
+                return False
         return (sorted({tuple(e) for e in model_out.get("edges", [])}) == [tuple(e) for e in impl_out["edges"]]
                 and model_out.get("out") == impl_out["out"] and model_out.get("convex") is True)
 
@@ -745,6 +1079,7 @@ class C25(PropertyCheck):
                             fail("union", f"right-not-monotone/{rel}",
                                  f"{rel}({show(pool[i])}, {show(pool[k])}) holds but not {rel}(., {show(pool[j])}) "
                                  f"although the latter union contains the former", L=pool[i], M=pool[k], R=pool[j])
+        fails += self._hist_oracle(ctx, case, impl_out)
         # dedupe by signature (one report per class and case)
         seen, res = set(), []
         for f in fails:
@@ -753,6 +1088,80 @@ class C25(PropertyCheck):
                 seen.add(s)
                 res.append(f)
         return res
+
+    def _hist_oracle(self, ctx, case, impl_out):
+        """Consistent with the class hierarchy, for histories: (a) every answer equals the answer of a type system that
+        received the same edges and was never queried before; (b) once all `__bases__` pairs are in, `is_subclass`
+        is `issubclass` (+ tower if enabled) and so are is_subtype / is_maybe_subtype / "distance defined" between
+        argument-free instances of classes without hard-coded type parameters."""
+        h = impl_out.get("hist")
+        if not h:
+            return []
+        hp = self._hist_plan(ctx, case)
+        plan, names, off = hp["plan"], ctx["names"], hp["off"]
+        types = case["hist"]["types"]
+        fails = []
+
+        def show(q):
+            if q[0] in ("sub", "maybe", "dist"):
+                fn = {"sub": "is_subtype", "maybe": "is_maybe_subtype", "dist": "subtype_distance"}[q[0]]
+                return f"{fn}({jdump(types[q[1] - off])}, {jdump(types[q[2] - off])})"
+            if q[0] == "subclass":
+                return f"is_subclass({names[q[1]]}, {names[q[2]]})"
+            return f"get_{q[0]}({names[q[1]]})"
+
+        def edge_s(e):
+            return f"{names[e[1]]}->{names[e[2]]}" + ("" if e[3] == "edge" else "(tower)")
+
+        qpos = [k for k, s_ in enumerate(plan) if s_[0] != "edge"]
+        first_seen = {}
+        stale_done = set()
+        for n_, k in enumerate(qpos):
+            q = plan[k]
+            key = jdump(q[:3])
+            if h["ans"][n_] != h["ref"][n_] and q[0] not in stale_done:
+                stale_done.add(q[0])
+                before = [edge_s(e) for e in plan[:k] if e[0] == "edge"]
+                since = ([edge_s(e) for e in plan[first_seen[key]:k] if e[0] == "edge"] if key in first_seen else None)
+                nm = lambda a: [names[x] for x in a] if isinstance(a, list) else a  # noqa: E731
+                what = (f"{show(q)} = {nm(h['ans'][n_])} on the live type system after the edges {before}"
+                        + (f" (asked before as well; edges added since then: {since})" if since is not None else "")
+                        + f", but a type system that received the same edges and was never queried before "
+                          f"answers {nm(h['ref'][n_])}")
+                fails.append(Failure({"law": "history", "class": "stale/" + q[0]}, what,
+                                     detail={"query": show(q), "edges_before": before, "edges_since_first_asked": since}))
+            first_seen.setdefault(key, k)
+        # (b) the last sweep against Python
+        if h["complete"] and plan and plan[-1][0] != "edge":
+            last_edge = max([k for k, s_ in enumerate(plan) if s_[0] == "edge"], default=-1)
+            plain = {}
+            for k_, t in enumerate(types):
+                if isinstance(t, dict) and "i" in t and not t["i"][1] and t["i"][0] not in ARITY \
+                        and t["i"][0] in ctx["ids"]:
+                    plain[off + k_] = ctx["ids"][t["i"][0]]
+            done = set()
+            for n_, k in enumerate(qpos):
+                if k <= last_edge:
+                    continue
+                q, a = plan[k], h["ans"][n_]
+                if q[0] == "subclass":
+                    e, sig = h["exp"].get(f"{q[1]},{q[2]}"), "subclass-disagrees-with-issubclass"
+                    bad = e is not None and a is not e
+                elif q[0] in ("sub", "maybe") and q[1] in plain and q[2] in plain:
+                    e, sig = h["exp"].get(f"{plain[q[1]]},{plain[q[2]]}"), "instance-disagrees-with-issubclass/" + q[0]
+                    bad = e is not None and a is not e
+                elif q[0] == "dist" and q[1] in plain and q[2] in plain:   # (supertype, subtype)
+                    e, sig = h["exp"].get(f"{plain[q[2]]},{plain[q[1]]}"), "instance-disagrees-with-issubclass/dist"
+                    bad = e is not None and (a is not None) is not e
+                else:
+                    continue
+                if bad and sig not in done:
+                    done.add(sig)
+                    fails.append(Failure({"law": "history", "class": sig},
+                                         f"after the complete history {show(q)} = {a}, Python's issubclass"
+                                         f"{' (+ numeric tower)' if any(s_[3] == 'tower' for s_ in plan) else ''} says {e}",
+                                         detail={"query": show(q)}))
+        return fails
 
     def classify(self, case, impl_out):
         n = len(case["pool"])
